@@ -134,6 +134,60 @@ func verifC09Run(t *testing.T, g decode.BLSGroup, name string, fresh func() veri
 		}
 		valid := bytes.Equal(b, v)
 		vlib.Eval(sub)
+		{
+			// the same input decoded into a matrix that already holds another matrix (of another shape), or the
+			// remains of a rejected decode: verdict and re-serialisation must be those of a fresh receiver
+			type obs struct {
+				ok  bool
+				pan interface{}
+				out []byte
+			}
+			look := func(mm verifC09Matrix) (o obs) {
+				o.pan, _ = vlib.Catch(func() {
+					o.ok = mm.unmarshalBinary(b) == nil
+					if o.ok {
+						o.out, _ = mm.marshalBinary()
+					}
+				})
+				return o
+			}
+			fr := look(fresh())
+			states := []string{"other-matrix", "after-rejected-decode", "same-input-twice"}
+			st := int(vlib.Hash64([]byte("recv"), b) % uint64(len(states)))
+			var um verifC09Matrix
+			switch st {
+			case 0:
+				um = random(t, 3-r+1, c)
+			case 1:
+				um = random(t, r, c)
+				bad := append([]byte{}, v...)
+				for i := 4; i < len(bad); i++ {
+					bad[i] = 0xff
+				}
+				vlib.Catch(func() { _ = um.unmarshalBinary(bad) })
+			default:
+				um = fresh()
+				vlib.Catch(func() { _ = um.unmarshalBinary(b) })
+			}
+			us := look(um)
+			vlib.Class(sub, "used-receiver state="+states[st])
+			if fr.pan == nil {
+				detail := fmt.Sprintf("receiver state=%s data=%x fresh={ok=%v} used={ok=%v panic=%v out=%x}", states[st], b, fr.ok, us.ok, us.pan, us.out)
+				switch {
+				case us.pan != nil:
+					vlib.Report(t, "C09/receiver/"+sub+"/panics-with-used-receiver", detail)
+					return
+				case us.ok != fr.ok:
+					vlib.Report(t, "C09/receiver/"+sub+"/verdict-differs", detail)
+					return
+				case us.ok && !bytes.Equal(us.out, fr.out):
+					vlib.Report(t, "C09/receiver/"+sub+"/value-differs", detail)
+					return
+				case us.ok:
+					vlib.Class(sub, "used-receiver accepted: compared with fresh decode")
+				}
+			}
+		}
 		m2 := fresh()
 		var uerr error
 		if pn, _ := vlib.Catch(func() { uerr = m2.unmarshalBinary(b) }); pn != nil {
